@@ -100,7 +100,7 @@ def check_selectors(chk, rep, repo):
     chk.floor("calls into KNNSubgraph.create_arcs / calculate_pdf", n_calls, 6)
 
 
-def check_row_ids(chk, rep, repo, only=None, floor=3):
+def check_row_ids(chk, rep, repo, only=None, floor=2):
     n = 0
     # a private helper (other than the graph builders themselves) is analysed inside the functions that call it, where
     # the arrays it receives have the caller's names; it is not analysed a second time on its own
